@@ -6,9 +6,10 @@
    static constant Params::skipFirstMemPool of a nested class), Lim4's and LimP's pointer-state packing (mPtrState arithmetic with
    memory-pool pointers), and every Bucket::Remove of these kinds (itemReplacer(items[count-1], *iter): the element that moves into
    the hole is the last one -- observed by the shape correspondence after every removal). *)
-From Coq Require Import ZArith Bool Lia.
+From Coq Require Import ZArith Bool Lia List.
+Import ListNotations.
 From MomoCommon Require Import GenPrelude.
-From C01 Require Gen_UnlimP Gen_LimP1.
+From C01 Require Gen_UnlimP Gen_LimP1 Gen_LimP1t Gen_LimP1f Gen_Lim4 Gen_LimP.
 Local Open Scope Z_scope.
 
 (* UnlimP: never full, never "was full", max probe 0  ==  the model parameters unlimited = true, wf0 = false, bound kind 1 *)
@@ -29,4 +30,76 @@ Proof.
   { rewrite Z.shiftr_div_pow2 by lia. change (2 ^ 4) with 16. rewrite Z.add_comm, Z.div_add by lia.
     rewrite Z.div_small by lia. lia. }
   rewrite E1, E2. split; auto. split; auto. apply Z.eqb_eq.
+Qed.
+
+(* ================= round 5: the WasFull rules, translated with both pvGetMemPoolIndex overloads (asserts dropped: -DNDEBUG) =================
+   WasFull() == (stored memory-pool index == pvGetMemPoolIndex(maxCount)); the stored index after the bucket has held c items is
+   pvGetMemPoolIndex(c) (AddCrt grows the pool index one step at a time and Remove never lowers it: validated by the shape
+   comparison), so "WasFull becomes true at the first c with index(c) = index(maxCount)" = prop.py params()'s (wf0, thr). *)
+
+(* LimP1, skipFirstMemPool = true *)
+Theorem limp1t_wasfull maxCount idx count : 0 <= idx < 16 -> 0 <= count < 16 ->
+  Gen_LimP1t.WasFull maxCount (idx * 16 + count) = (idx =? Gen_LimP1t.pvGetMemPoolIndexOf maxCount).
+Proof.
+  intros Hi Hc. unfold Gen_LimP1t.WasFull, Gen_LimP1t.pvGetMemPoolIndex.
+  rewrite Z.shiftr_div_pow2 by lia. change (2 ^ 4) with 16. rewrite Z.add_comm, Z.div_add by lia. rewrite Z.div_small by lia. reflexivity.
+Qed.
+
+Theorem limp1t_index_rule maxCount c : 1 <= c <= maxCount ->
+  (Gen_LimP1t.pvGetMemPoolIndexOf c = Gen_LimP1t.pvGetMemPoolIndexOf maxCount <-> (c = maxCount \/ (maxCount = 2 /\ c = 1))).
+Proof.
+  intros H. unfold Gen_LimP1t.pvGetMemPoolIndexOf, Gen_LimP1t.skipFirstMemPool. simpl.
+  destruct (Z.eqb_spec c 1), (Z.eqb_spec maxCount 1); lia.
+Qed.
+
+(* LimP1, skipFirstMemPool = false: the index is the count, WasFull exactly from count = maxCount on *)
+Theorem limp1f_index_rule maxCount c : 1 <= c <= maxCount ->
+  (Gen_LimP1f.pvGetMemPoolIndexOf c = Gen_LimP1f.pvGetMemPoolIndexOf maxCount <-> c = maxCount).
+Proof. intros H. unfold Gen_LimP1f.pvGetMemPoolIndexOf, Gen_LimP1f.skipFirstMemPool. simpl. lia. Qed.
+
+(* Lim4 (logMaxCount = 2, maxCount = 4): null states, index = count, and the packing of the state word with an ABSTRACT pointer *)
+Theorem lim4_wasfull_rule :
+  Gen_Lim4.maxCount = 4 /\
+  Gen_Lim4.WasFull Gen_Lim4.stateNull = false /\ Gen_Lim4.WasFull Gen_Lim4.stateNullWasFull = true /\
+  (forall c, Gen_Lim4.pvGetMemPoolIndexOf c = c) /\
+  (forall st, Gen_Lim4.pvIsEmpty st = false ->
+     Gen_Lim4.WasFull st = (Gen_Lim4.pvGetMemPoolIndex st =? Gen_Lim4.pvGetMemPoolIndexOf Gen_Lim4.maxCount)).
+Proof.
+  split; [vm_compute; reflexivity|]. split; [vm_compute; reflexivity|]. split; [vm_compute; reflexivity|]. split; [reflexivity|].
+  intros st H. unfold Gen_Lim4.pvIsEmpty in H. apply orb_false_iff in H. destruct H as [H1 H2].
+  unfold Gen_Lim4.WasFull. rewrite H1, H2. reflexivity.
+Qed.
+
+(* pvSet packs ((memPoolIndex-1) << 30) + ptr*memPoolIndex + count-1; whatever the pointer part (below 2^30), the pool index is read back *)
+Theorem lim4_pack_index st ptr idx count : 1 <= idx <= 4 -> 1 <= count <= idx -> 0 <= ptr -> ptr * idx + count - 1 < 2 ^ 30 ->
+  Gen_Lim4.pvGetMemPoolIndex (Gen_Lim4.pvSet st ptr idx count) = idx.
+Proof.
+  intros Hi Hc Hp Hb. unfold Gen_Lim4.pvSet, Gen_Lim4.pvGetMemPoolIndex, Gen_Lim4.logMaxCount.
+  change (wrapU 64 (32 - 2)) with 30.
+  assert (H30 : 2 ^ 30 = 1073741824) by reflexivity. assert (H32 : 2 ^ 32 = 4294967296) by reflexivity.
+  assert (H64 : 2 ^ 64 = 18446744073709551616) by reflexivity.
+  assert (Hpi : 0 <= ptr * idx) by nia.
+  rewrite (wrapU_small 64 (idx - 1)) by lia. rewrite Z.shiftl_mul_pow2 by lia.
+  rewrite (wrapU_small 64 ((idx - 1) * 2 ^ 30)) by lia.
+  rewrite (wrapU_small 64 (ptr * idx)) by lia.
+  rewrite (wrapU_small 64 ((idx - 1) * 2 ^ 30 + ptr * idx)) by lia.
+  rewrite (wrapU_small 64 ((idx - 1) * 2 ^ 30 + ptr * idx + count)) by lia.
+  rewrite (wrapU_small 64 ((idx - 1) * 2 ^ 30 + ptr * idx + count - 1)) by lia.
+  rewrite (wrapU_small 32) by lia.
+  rewrite Z.shiftr_div_pow2 by lia.
+  replace ((idx - 1) * 2 ^ 30 + ptr * idx + count - 1) with ((ptr * idx + count - 1) + (idx - 1) * 2 ^ 30) by lia.
+  rewrite Z.div_add by lia. rewrite Z.div_small by lia. rewrite wrapU_small; lia.
+Qed.
+
+(* LimP with pointer state (this instantiation: maxCount = 8, items no larger than their alignment => odd pools skipped):
+   index(c) = c + c mod 2, so WasFull turns true already at c = 7 = maxCount - 1 (params(): thr = N - 1) *)
+Theorem limp_wasfull_rule :
+  Gen_LimP.maxCount = 8 /\ Gen_LimP.skipOddMemPools = true /\
+  Gen_LimP.WasFull Gen_LimP.stateNull = false /\ Gen_LimP.WasFull Gen_LimP.stateNullWasFull = true /\
+  (forall c, 1 <= c <= 8 -> (Gen_LimP.pvGetMemPoolIndexOf c = Gen_LimP.pvGetMemPoolIndexOf Gen_LimP.maxCount <-> 7 <= c)).
+Proof.
+  split; [reflexivity|]. split; [vm_compute; reflexivity|]. split; [vm_compute; reflexivity|]. split; [vm_compute; reflexivity|].
+  intros c H. assert (Hc : c = 1 \/ c = 2 \/ c = 3 \/ c = 4 \/ c = 5 \/ c = 6 \/ c = 7 \/ c = 8) by lia.
+  destruct Hc as [E|[E|[E|[E|[E|[E|[E|E]]]]]]]; subst c; vm_compute; split; intros; try discriminate; try lia; auto;
+    match goal with H : _ |- _ => try (exfalso; apply H; reflexivity) end.
 Qed.
